@@ -370,8 +370,10 @@ func newPrinter() (r *pp)
   nosweep
   modifies alloc
   assume-fresh p after "p := ppFree.Get().(*pp)"
+  assume-fresh p.buf.buf after "p := ppFree.Get().(*pp)"
   assume [C12] inv(p.buf) && PoolInv(p) && WP(p.fmt) after "p := ppFree.Get().(*pp)"
   ensures r != nil && fresh(r)
+  ensures [C12] ref(r.buf.buf) == 0 || fresh(r.buf.buf)
   ensures [C12] Pristine(r) && WP(r.fmt)
   ensures inv(r.buf)
 
